@@ -443,6 +443,7 @@ func init() {
 		PanicRule: "C13.panic",
 		Rule: "plans = (listener kind tcp/tcp+tls/ws/wss/in-process, buffer sizes incl. 0, terminator in {client FinishSession, server FinishSession, server FailSession, Client.Close of the high-level client, Server.Close}, the instant of the end relative to establishment, " +
 			"0-2 sender tasks per direction with traffic in flight, slow handlers/consumers, client consuming through a mux or four stream readers, benign link faults, terminating calls with a context of 1-400 ms that may give up mid-way, server sends with short contexts behind a small send buffer that may be given up mid-write); oracle: terminating call returns and disconnects the initiator, peer reaches the terminal state, " +
+			"a high-level Client as the observer of server-initiated ends (it replaces and closes the ended channel on its own); " +
 			"receiver-done and streams close and consumers return within 30 s, Finished fires once, a send on the ended session is refused rather than left blocked, after both sides closed no session goroutine and no open connection end remains; goroutine panics are violations; non-trivial = session established; distinct = distinct (plan JSON, event-log hash)",
 	})
 }
